@@ -13,6 +13,7 @@ import (
 	"github.com/consensys/gnark/frontend/cs/r1cs"
 	"github.com/wormhole-foundation/example-near-light-client/plonk/gates"
 	"github.com/wormhole-foundation/example-near-light-client/variables"
+	"github.com/wormhole-foundation/example-near-light-client/verifier"
 
 	"verifharness/circ"
 	"verifharness/engine"
@@ -311,7 +312,8 @@ func init() {
 					// description changes
 					ds := c01DescChanges(ctx, name)
 					for i, d := range ds {
-						if ctx.Quick && !(i%9 == 0 || d.What != "kis" && i%4 == 0) {
+						structural := d.What == "selidx" || d.What == "groupstart" || d.What == "groupend" || d.What == "swapgates"
+						if ctx.Quick && !(i%9 == 0 || d.What != "kis" && i%4 == 0 || structural && name == "A_testdata") {
 							continue
 						}
 						if ctx.Quick && name != "A_testdata" && i%3 != 0 {
@@ -333,6 +335,14 @@ func init() {
 					for i := 0; i < ncomp; i++ {
 						cs = append(cs, fw.Case{ID: fmt.Sprintf("compiled/%s/tamper/%d", n, i), Kind: "compiled", P: map[string]any{"inst": n, "i": i}})
 					}
+				}
+				// a tampered proof verified by a VerifierChip that has just verified valid ones
+				nseq := 6
+				if !ctx.Quick {
+					nseq = 60
+				}
+				for i := 0; i < nseq; i++ {
+					cs = append(cs, fw.Case{ID: fmt.Sprintf("sequence/A_testdata/%d", i), Kind: "sequence", P: map[string]any{"inst": "A_testdata", "i": i}})
 				}
 				// cross pairings
 				pairs := [][2]string{{"A_testdata", "B_random_CGZ"}, {"B_random_CGZ", "A_testdata"}, {"B_epoch_CbAH", "A_testdata"}}
@@ -436,6 +446,30 @@ func init() {
 					}
 					o.Inc("desc_rejected_" + d.What + "_" + res.Verdict.String())
 					o.Sample = map[string]any{"change": d.What, "i": d.I, "ref": trunc(refErr.Error(), 60), "verdict": resStr(res)}
+				case "sequence":
+					first := getInst(name).Restrict(1)
+					second := getInst("A_testjson").Restrict(1)
+					t := second.Clone()
+					ls := c01Leaves(t)
+					r := ctx.Rand(c.ID)
+					l := ls[r.Intn(len(ls))]
+					pert := c01Perts[r.Intn(3)]
+					changed, desc := c01Apply(ls, l.Path, pert, ctx, c.ID)
+					if !changed {
+						return fw.Outcome{Trivial: true}
+					}
+					res := harnRunOpt(opt, func(api frontend.API) error {
+						vc := verifier.NewVerifierChip(api, first.Common)
+						a := first.Clone()
+						vc.Verify(a.PWI.Proof, a.PWI.PublicInputs, a.VD)
+						vc.Verify(t.PWI.Proof, t.PWI.PublicInputs, t.VD)
+						return nil
+					})
+					if v, bad := mustReject(res, "sequence:"+l.Kind+":"+pert); bad {
+						return v
+					}
+					o.Inc("tampered_second_proof_rejected")
+					o.Sample = map[string]any{"second_proof_change": l.Path + " " + desc, "verdict": resStr(res)}
 				case "compiled":
 					in := getInst(name).Restrict(1)
 					cp := ctx.Once("bigcs/"+name, func() any {
